@@ -127,6 +127,18 @@ func checkUnpack(in []byte, dotu bool) (unpackResult, []finding) {
 			}
 		}
 	}
+	// (b') ... nor on what the backing array holds beyond the input (a partial message at the start of a larger buffer)
+	for _, fill := range []byte{0, 1, 0xFF} {
+		rr := guardedUnpackIn(roomy(in, fill), dotu)
+		if rr.panicked != nil {
+			fs = append(fs, finding{"unpack-panic", fmt.Sprintf("Unpack panicked on %s given as a prefix of a larger buffer: %v", hexHead(in), rr.panicked)})
+			return r, fs
+		}
+		if d := sameOutcome(r, rr, dotu); d != "" {
+			fs = append(fs, finding{"unpack-capacity-dependent", fmt.Sprintf("decoding the %d bytes %s gives a different result when the slice has spare capacity filled with 0x%02X: %s", len(in), hexHead(in), fill, d)})
+			break
+		}
+	}
 	if r.err != nil {
 		return r, fs
 	}
